@@ -15,12 +15,15 @@ Record rcase := {
   rc_len : nat;                         (* chain length (blocks after genesis) *)
   rc_blocks : list (N * block);         (* the non-empty blocks, ascending heights *)
   rc_cuts : list N;                     (* recovery is run against the chain truncated at each *)
+  rc_sync : bool;                       (* true: production start-up (ClientConnected -> syncWithChain);
+                                           false: the recovery hook on a wallet at height 0 *)
+  rc_ts : list Z;                       (* block timestamps by height; [] = simchain's default grid *)
   rc_bday : Z;                          (* birthday block height; negative: located from rc_birthday_ts *)
   rc_birthday_ts : Z;
   (* observed *)
   rc_err : bool;
   rc_init_zero : bool;
-  rc_bday_used : N;
+  rc_bday_used : N;                     (* birthday block handed to recovery / stored by the first start *)
   rc_next : list N;                     (* ext, int per scope 0..3 *)
   rc_probes : list (key * bool * bool); (* path, known to the manager, used *)
   rc_recorded : list (N * Z);           (* txid, height of its record or -1 *)
@@ -63,33 +66,84 @@ Definition recorded_height (p : pstate) (id : N) : Z :=
   | None => (-1)%Z
   end.
 
-Definition model_bday (c : rcase) : option N :=
-  if (rc_bday c <? 0)%Z then
-    match rc_cuts c with
-    | [] => None
-    | c0 :: _ => match locate_birthday (grid_ts (S (N.to_nat c0))) (rc_birthday_ts c) with
-                 | Some h => Some (Z.to_N h)
-                 | None => None
-                 end
-    end
-  else Some (Z.to_N (rc_bday c)).
+(** What the theorems about the birthday block use of a search result
+    (C16_birthday_search_total): it is a block of the chain and it is the
+    genesis block or stamped no later than birthday + 2h.  WHICH such block
+    the search returns is not compared: the implementation's own result is
+    handed to the model of recovery, after checking that it is admissible. *)
+Definition admissible (ts : list Z) (bday : Z) (h : Z) : bool :=
+  ((0 <=? h) && (h <? Z.of_nat (length ts)) &&
+   ((h =? 0) || (nth (Z.to_nat h) ts 0 <=? bday + birthday_block_delta)))%Z.
 
-Definition model_run (c : rcase) (bday : N) : pstate :=
+Definition case_ts (c : rcase) : list Z :=
+  match rc_ts c with [] => grid_ts (S (rc_len c)) | l => l end.
+
+Definition case_chain (c : rcase) : list block := mk_chain (rc_len c) 1 (rc_blocks c).
+
+(** timestamps of the chain the backend has when the search runs *)
+Definition search_ts (c : rcase) : list Z :=
+  match rc_cuts c with
+  | [] => []
+  | c0 :: _ => firstn (S (N.to_nat c0)) (case_ts c)
+  end.
+
+(** the recovery hook on a fresh wallet (synced-to at genesis) *)
+Definition hook_run (c : rcase) (bday : N) : pstate :=
   recovery_runs no_invalid 0 default_scopes (rc_w c) (rc_bs c) bday (rc_cuts c)
-    (mk_chain (rc_len c) 1 (rc_blocks c)) fresh_pstate.
+    (case_chain c) fresh_pstate.
+
+(** the production start-ups with the first start's search result given *)
+Definition sync_run_from (c : rcase) (b : N) : pstate :=
+  match rc_cuts c with
+  | [] => fresh_pstate
+  | c0 :: rest =>
+      recovery_runs no_invalid 0 default_scopes (rc_w c) (rc_bs c) b rest (case_chain c)
+        (first_start no_invalid 0 default_scopes (rc_w c) (rc_bs c) b c0 (case_chain c) fresh_pstate)
+  end.
+
+Definition model_state (c : rcase) : option pstate :=
+  let bi := rc_bday_used c in
+  let adm h := admissible (search_ts c) (rc_birthday_ts c) h in
+  if rc_sync c then
+    match startups no_invalid 0 default_scopes (rc_w c) (rc_bs c) (case_ts c) (rc_birthday_ts c)
+            (rc_cuts c) (case_chain c) fresh_wstate with
+    | Some ws =>
+        match w_bblock ws with
+        | Some bm =>
+            if adm (Z.of_N bm) && adm (Z.of_N bi)
+            then Some (if bm =? bi then w_p ws else sync_run_from c bi)
+            else None
+        | None => None
+        end
+    | None => None
+    end
+  else if (rc_bday c <? 0)%Z then
+    match locate_birthday (search_ts c) (rc_birthday_ts c) with
+    | Some hm => if adm hm && adm (Z.of_N bi) then Some (hook_run c bi) else None
+    | None => None
+    end
+  else if Z.to_N (rc_bday c) =? bi then Some (hook_run c bi) else None.
 
 Definition model_next (p : pstate) : list N :=
   flat_map (fun s => [get_next (s, false) p; get_next (s, true) p]) default_scopes.
 
+(** pointwise [<=]: the property asks the next index to be ABOVE the highest
+    used one; the model's is exactly 1 + the highest found one *)
+Definition listN_leb (a b : list N) : bool :=
+  Nat.eqb (length a) (length b) && forallb (fun '(x, y) => x <=? y) (combine a b).
+
+(** Compared: no error, a fresh wallet to begin with, next indices at least
+    the model's, every probed path the model knows is known to the manager,
+    the Used flag of every probed path, the record (height) of every
+    transaction, balance, unspent set, synced-to height. *)
 Definition rcase_ok (c : rcase) : bool :=
-  match model_bday c with
+  match model_state c with
   | None => false
-  | Some bday =>
-      let p := model_run c bday in
-      negb (rc_err c) && rc_init_zero c && (bday =? rc_bday_used c) &&
-      listN_eqb (model_next p) (rc_next c) &&
+  | Some p =>
+      negb (rc_err c) && rc_init_zero c &&
+      listN_leb (model_next p) (rc_next c) &&
       forallb (fun '(k, pres, us) =>
-                 Bool.eqb (known no_invalid default_scopes p k) pres &&
+                 implb (known no_invalid default_scopes p k) pres &&
                  Bool.eqb (mem_key k (p_used p)) us) (rc_probes c) &&
       forallb (fun '(id, h) => Z.eqb (recorded_height p id) h) (rc_recorded c) &&
       Z.eqb (fold_left (fun a u => (a + snd u)%Z) (p_unspent p) 0%Z) (rc_balance c) &&
@@ -97,11 +151,13 @@ Definition rcase_ok (c : rcase) : bool :=
       (p_synced p =? rc_synced c)
   end.
 
-(** birthday search: timestamps, searched birthday, observed height *)
+(** birthday search: timestamps, searched birthday, observed height.  The
+    model's search is run (it must return a block) and both results must be
+    admissible. *)
 Definition bcase_ok (c : list Z * Z * Z) : bool :=
   let '(ts, b, h) := c in
   match locate_birthday ts b with
-  | Some m => Z.eqb m h
+  | Some m => admissible ts b m && admissible ts b h
   | None => false
   end.
 
